@@ -248,6 +248,15 @@ func matchSet(res Results, lineMap []int) []string {
 	return out
 }
 
+var c05NoticeLeads = []string{
+	"Al's Copyright 2001 Foo",
+	"'a' Copyright 1999 X",
+	"\"x\" Copyright (c) 2010 Y",
+	"a-b Copyright 2003 Z",
+	"'' - Copyright 2003, Z",
+	"Copyright 2004 O'Neil-Smith \"the author\"",
+}
+
 func c05Match(c *vrep.Ctx) {
 	t, _ := strconv.ParseFloat(c.Param("t", "0.8"), 64)
 	cl := vEmbeddedCached(t)
@@ -267,6 +276,8 @@ func c05Match(c *vrep.Ctx) {
 		}
 	case "pairs":
 		docs = vDocPool(c.Pick(8, 40))
+	case "notices":
+		docs = vDocPool(c.Pick(4, 24))
 	}
 	sc := vScenarioFiles()
 	var scNames []string
@@ -274,7 +285,7 @@ func c05Match(c *vrep.Ctx) {
 		scNames = append(scNames, n)
 	}
 	sort.Strings(scNames)
-	c.R.Rule = fmt.Sprintf("Match level, mode %s: documents in OOV context x %d transform kinds (global: all eligible lines; perline: one line at a time on documents of <=30 lines; pairs: all ordered pairs of kinds; scenarios: the 41 scenario files); multiset of (type, name, variant, confidence, token span, mapped lines) must be equal; non-trivial = distinct (document, transform...) cases where the untransformed input has a non-Copyright match and the transform changed the bytes", mode, len(vTransforms))
+	c.R.Rule = fmt.Sprintf("Match level, mode %s: documents in OOV context x %d transform kinds (global: all eligible lines; perline: one line at a time on documents of <=30 lines; pairs: all ordered pairs of kinds; scenarios: the 41 scenario files; notices: a copyright notice with quotes / apostrophes / hyphens in its lead in front of the document); multiset of (type, name, variant, confidence, token span, mapped lines) must be equal; non-trivial = distinct (document, transform...) cases where the untransformed input has a non-Copyright match and the transform changed the bytes", mode, len(vTransforms))
 	c.Bound("documents", len(docs))
 	c.Bound("mode", mode)
 	body := func(r *vx.Run) {
@@ -287,6 +298,13 @@ func c05Match(c *vrep.Ctx) {
 			d := docs[r.Choose(len(docs), "doc")]
 			base = vOOVBlock(2, 5, 0) + string(d.Bytes) + "\n" + vOOVBlock(1, 4, 30)
 			id = d.Key
+			if mode == "notices" {
+				// a copyright notice whose short lead contains what the transforms replace (quotes,
+				// apostrophes, hyphens) in front of the document
+				n := c05NoticeLeads[r.Choose(len(c05NoticeLeads), "notice")]
+				base = vOOVBlock(2, 5, 0) + n + "\n" + string(d.Bytes) + "\n" + vOOVBlock(1, 4, 30)
+				id = fmt.Sprintf("%s|notice %q", d.Key, n)
+			}
 		}
 		var trs []vTransform
 		only := -1
